@@ -407,7 +407,7 @@ pub static C09: SimpleProp = SimpleProp {
     level: "exploration",
     rule: "one evaluation = one decode of (valid reference-encoded prefix + one illegal copy: distance produced+1, dictionary+1, one lap back, 2^31, 2^32-1, stale repeated distance at stream start or across an LZMA2 dictionary reset, matched literal with stale rep0) placed at wrap-relative positions 0,1,dict-1,dict,dict+1,k*dict±1 and random; circular window via lzma_decompress / raw decoder (dictionary 1..64, 4096..) / Stream, accumulating window via LZMA2 plain and inside .xz; every case distinct by scenario hash and non-trivial by construction",
     runs_quick: 60_000,
-    runs_thorough: 3_000_000,
+    runs_thorough: 24_000_000,
     both_profiles: false,
     assumptions: &[
         "the LZ model decides what the prefix produces; any sink byte beyond or different from it counts as fabricated",
